@@ -11,7 +11,7 @@ import filegen
 import filemodel
 
 ID = 'C02'
-GEN_SECTIONS = ['GenFile', 'GenDedup', 'FP_file_io', 'FP_dedup']
+GEN_SECTIONS = ['GenFile', 'GenDedup', 'GenDefs', 'FP_file_io', 'FP_dedup', 'FP_definitions']
 COQ_TARGETS = ['Props/C02.vo']
 EXTRACT_TARGETS = ['Extract/Ex_file.vo']
 RUNNER = 'file'
